@@ -19,8 +19,8 @@ def run(chk):
                 "apply_retention with dir joined with a name popped from its own listing, and the loop cannot pop an empty "
                 "listing; R4 sort order of the listing, the end current_file_name() reads and the end retention removes are "
                 "consistent (descending/first/pop or ascending/last/remove(0)); R5 file_name() puts the period second of "
-                "four dot-joined parts in the order prefix, period, id, ext, and read_file_name_ts() reads part 1 of "
-                "split('.'); a new file is named from the period of the same clock reading that decides rolling.")
+                "four dot-joined parts in the order prefix, period, id, ext, and read_file_name_ts() finds the period "
+                "whatever the prefix contains; a new file is named from the period of the same clock reading that decides rolling.")
     chk.trust("rustc nightly; Vec::pop/first/sort_by, str::split contracts")
     chk.assume("membership of a file in the set (starts_with(prefix) && ends_with(ext)), calendar arithmetic of the rolling id is value-level and not decided (not claimed)")
     chk.exhaustive = True
@@ -246,14 +246,16 @@ def run(chk):
         if order != ["file_prefix", "ts", "id", "file_ext"]:
             return False, "file_name() formats its parts in the order %s; names must be prefix.period.id.ext" % order, [], fn.span
         rd = P.body("emit_file::read_file_name_ts")
-        sp = [c for c in rd.calls(normal_only=True) if c.callee.get("name") == "split"]
-        if len(sp) != 1 or mir.o_const_value(rd.origin(sp[0].args[1])) not in (".", 46):
-            v = mir.o_const_value(rd.origin(sp[0].args[1])) if sp else None
-            if not (sp and rd.origin(sp[0].args[1])[0] == "const" and rd.origin(sp[0].args[1])[1].get("v", {}).get("char") == "."):
-                return False, "read_file_name_ts must split the name on '.' (found %r)" % (v,), [], rd.span
+        sp = [c for c in rd.calls(normal_only=True) if c.callee.get("name") in ("split", "rsplit")]
+        if len(sp) != 1:
+            return False, "read_file_name_ts must split the name once", [], rd.span
+        so = rd.origin(sp[0].args[1])
+        sepv = mir.o_const_value(so)
+        if sepv not in (".", 46) and not (so[0] == "const" and (so[1].get("v") or {}).get("char") == "."):
+            return False, "read_file_name_ts must split the name on '.' (found %r)" % (sepv,), [], rd.span
         sk = [c for c in rd.calls(normal_only=True) if c.callee.get("name") in ("skip", "nth")]
-        if len(sk) != 1 or mir.o_const_value(rd.origin(sk[0].args[1])) != 1:
-            return False, "read_file_name_ts must take part 1 (the period) of the dot-separated name", [], rd.span
+        if len(sk) != 1 or not isinstance(mir.o_const_value(rd.origin(sk[0].args[1])), int):
+            return False, "read_file_name_ts must take one constant part of the dot-separated name (position checked by R5:reader-any-prefix)", [], rd.span
         # the worker names a new file with the file_ts of this batch's clock reading
         cb = c10.main_closure(P)
         fnc = cb.calls_to(path="emit_file::file_name")
@@ -477,6 +479,43 @@ def run(chk):
         return True, "", sites
     chk.ob("C11.R9:period-from-own-name", "an opened file's period is parsed from the name of the very path that was opened", r9)
 
+
+    # ---- R5b: the reader finds the period whatever the configured prefix contains -------------------------------------------------
+    def r5b():
+        from . import fmtspec
+        rd = P.body("emit_file::read_file_name_ts")
+        sp = [c for c in rd.calls(normal_only=True) if c.callee.get("name") in ("split", "rsplit", "splitn", "rsplitn")]
+        sk = [c for c in rd.calls(normal_only=True) if c.callee.get("name") in ("skip", "nth")]
+        if len(sp) != 1 or len(sk) != 1:
+            raise mir.AnchorMissing("split + skip/nth in read_file_name_ts")
+        k = mir.o_const_value(rd.origin(sk[0].args[1]))
+        from_end = sp[0].callee.get("name").startswith("r")
+        try:
+            fid = fmtspec.templates(P.body("emit_file::file_id"))[0][1]
+        except (fmtspec.BadTemplate, IndexError) as e:
+            return False, "the id template could not be decoded (%s)" % e, [], None
+        id_parts = 1 + sum(x[1].count(".") for x in fid if x[0] == "lit")
+        dp = P.body("emit_file::dir_prefix_ext")
+        if not from_end:
+            # counting from the front: everything before the period must be free of the separator; the prefix is whatever the user
+            # configured (file_stem of the template), so it has to be validated
+            if k != 1:
+                return False, "the reader takes part %s from the front; the writer puts the period at part 1" % k, [], rd.span
+            validated = [c for c in dp.calls(normal_only=True) if c.callee.get("name") in ("contains", "find", "split", "split_once", "matches")]
+            if not validated:
+                return False, ("read_file_name_ts takes the part after the *first* '.', but the name starts with the configured prefix, which "
+                               "dir_prefix_ext takes from Path::file_stem() unchecked: with a template such as `svc.api.log` the prefix is "
+                               "`svc.api`, the reader sees `api` as the period, never equal to the current one, and every batch starts a new file"), [], sp[0].loc
+            return True, "", [sp[0].loc]
+        # counting from the end: after the period come the id (id_parts parts) and the extension (Path::extension: no dot)
+        want = id_parts + 1
+        if k != want:
+            return False, "the reader takes part %s from the end; after the period come %d id parts and the extension, so it is part %d" % (k, id_parts, want), [], sk[0].loc
+        ext_ok = [c for c in dp.calls(normal_only=True) if (c.callee.get("path") or "").endswith("Path::extension")]
+        if not ext_ok:
+            return False, "the extension is not taken with Path::extension (it could contain the separator)", [], dp.span
+        return True, "", [sp[0].loc, sk[0].loc]
+    chk.ob("C11.R5:reader-any-prefix", "the period is located in a file name independently of what the configured prefix contains", r5b)
 
     # ---- R10: names sort like the clock: every numeric component is fixed-width and zero-padded -----------------------------------
     def r10():
